@@ -93,4 +93,5 @@ STD_TRUSTED = [
     "coq/ocaml/drvlib.ml: float instance of the Num record (IEEE doubles, libm exp/log/log10/pow, rint, printf-based decimal rounding) and the token protocol",
     "harness: libm proxy for np.exp/log/log10/power in aquacrop modules (numpy differs from libm by <= 1 ulp), argument generators, observation by rebinding names in module namespaces",
     "theorems over R are about exact real arithmetic; IEEE rounding, NaN/inf and overflow are outside them (monitor tolerances as in DESIGN.md section 4)",
+    "translators (fail-closed, Python ast on the source text of /repo, run on every check): harness/gen_facts.py (catalogue / state-field / store-site / order-source tables) and harness/gen_kernels.py (kernel functions to Gallina definitions, proved equal to the hand model in proofs/KernelsSrcOK.v)",
 ]
